@@ -434,3 +434,36 @@ def model_json(t, mv):
         return model_json(t["to"], mv)
     if k == "ur":
         return [mv[0], model_json(t["m"][mv[0]], mv[1])]
+
+
+def diff_model(t, a, b, path="root"):
+    """First difference between two model values: (path, node kind) or None."""
+    k = t["k"]
+    if (a is None) != (b is None):
+        return path, k
+    if a is None:
+        return None
+    if k == "sc":
+        return None if a.tobytes() == b.tobytes() and a.dtype == b.dtype else (path, "sc")
+    if k == "str":
+        return None if a == b else (path, "str")
+    if k == "st":
+        for fn, ft in t["f"]:
+            d = diff_model(ft, a[fn], b[fn], f"{path}.{fn}")
+            if d:
+                return d
+        return None
+    if k == "ar":
+        if a.shape != b.shape:
+            return path + "._shape", "ar"
+        for i in sorted(a.items):
+            d = diff_model(t["it"], a.items[i], b.items[i], f"{path}{list(i)}")
+            if d:
+                return d
+        return None
+    if k == "ref":
+        return diff_model(t["to"], a, b, path + "->")
+    if k == "ur":
+        if a[0] != b[0]:
+            return path, "ur"
+        return diff_model(t["m"][a[0]], a[1], b[1], path + f"->{a[0]}")
